@@ -1,3 +1,4 @@
 SPECIFICATION Spec
+CONSTANT StrictOutcome = FALSE
 INVARIANT Done
 CHECK_DEADLOCK FALSE
